@@ -75,3 +75,63 @@ def borrow_search(tier, seed, hbin, rundir, _alarm):
     lines = p.stdout.strip().split("\n")
     return dict(header="(String-keyed queue; lookups through &str)", ops=[l.strip() for l in lines[1:]],
                 step=len(lines) - 2, why=lines[0], impl=lines[0], no_minimise=True)
+
+
+def hash_fuse_search(tier, seed, hbin, rundir, _alarm):
+    """C10: panics inside the user's Hash / Eq (and everything else) at the
+    k-th callback, caught.  IndexMap performs the hashing and probing, so the
+    model does not count these callbacks: implementation-only.  After every
+    step the raw tables must be well-formed (the state the unchecked accesses
+    rely on - what C10_unwind_step proves for the modelled callbacks) and no
+    later operation may abort."""
+    count = 3000 if tier == "quick" else 30000
+    stats = dict(hash_fuse_histories=0, hash_fuse_unwound=0)
+    for hm in (0, 1):
+        hist = os.path.join(rundir, "hfuse%d.hist" % hm)
+        p = subprocess.run([hbin, "gen", "random", "--seed", str(seed + 77 + hm), "--count", str(count // 2), "--len", "50",
+                            "--kind", "both", "--profile", "hfuse", "--keys", "12", "--prios", "small",
+                            "--hashmode", str(hm), "--out", hist], stdout=subprocess.PIPE, stderr=subprocess.STDOUT, text=True)
+        if p.returncode != 0:
+            raise RuntimeError("hfuse gen failed: " + p.stdout[-300:])
+        tr = hist + ".impl"
+        p = subprocess.run([hbin, "exec", hist, tr, "--timeout", "300"], stdout=subprocess.PIPE, stderr=subprocess.STDOUT, text=True)
+        traces = pqv_oracle.read_traces(tr)
+        for hid, header, ops in pqv_oracle.read_histories(hist):
+            lines = traces.get(hid, [])
+            stats["hash_fuse_histories"] += 1
+            had_unwound = False
+            for k, line in enumerate(lines):
+                why = None
+                if line.startswith("unwound"):
+                    had_unwound = True
+                    stats["hash_fuse_unwound"] += 1
+                if line.startswith("fault ub") or line.startswith("fault fuel"):
+                    why = "abort / out-of-bounds access after a caught panic (Hash/Eq/cmp/... fused): " + line.split(" ;")[0]
+                elif line.startswith("fault") and not had_unwound:
+                    why = "panic without a preceding caught panic"
+                else:
+                    _, _, regs = pqv_oracle.split_line(line)
+                    for r, reg in regs.items():
+                        w = pqv_oracle.wf_violation(reg)
+                        # duplicate keys cannot arise from atomic map operations either
+                        if w:
+                            why = "register %d after %r: %s" % (r, ops[min(k, len(ops) - 1)], w)
+                            break
+                if why:
+                    hash_fuse_search.stats = stats
+                    return dict(header=header, ops=ops[: k + 1] if not line.startswith("fault ub") else ops,
+                                step=k, why=why, impl=line, no_minimise=True, file=hist)
+    hash_fuse_search.stats = stats
+    return None
+
+
+def zst_search(tier, seed, hbin, rundir, _alarm):
+    """degenerate type parameters (zero-sized item / priority types, extreme
+    priorities) through every constructor and both serde paths: implementation-only"""
+    p = subprocess.run([hbin, "zst"], stdout=subprocess.PIPE, stderr=subprocess.STDOUT, text=True)
+    zst_search.stats = dict(degenerate_type_batteries=8)
+    if p.returncode == 0:
+        return None
+    lines = p.stdout.strip().split("\n")
+    return dict(header="(degenerate item/priority types; see harness/src/zst.rs)", ops=[l.strip() for l in lines[1:]],
+                step=len(lines) - 2, why=lines[0], impl=lines[0], no_minimise=True)
